@@ -42,7 +42,7 @@ ArithFailed(e) ==
       scopeR == (op \in {"mul", "div"} /\ e.ord = "po") \/ InScope(Rv.v)
   IN IF ~spec.ok \/ ~MustBePhase(op, e.other, e.ord) THEN {"~not-demanded"}
      ELSE IF ~(InScope(spec.v) /\ scopeL /\ scopeR) THEN {"~out-of-scope"}
-     ELSE PhaseResult(e.res, spec.v, spec.im, op = "abs" /\ L.im)
+     ELSE PhaseResult(e.res, spec.v, spec.im, FALSE)
 
 (* floor_divide / remainder / divmod of real phases.  Near a multiple of   *)
 (* the divisor (closer than 2^-52 cycle, but not on it) the neighbouring   *)
@@ -189,7 +189,10 @@ RoundTripFailed(e) ==
           \cup (IF ~e.p.im /\ e.res.im THEN {"real-string-imaginary"} ELSE {})
           \cup (IF e.p.im /\ RSign(RAdd(e.res.i, e.res.f)) # 0 /\ ~e.res.im THEN {"imaginary-flag"} ELSE {})
 
-Failed(e) ==
+(* an operand the caller handed in (other than the target of an in-place   *)
+(* form) holds different values after the call: later uses go wrong        *)
+OperandKept(e) == IF Has(e, "modified") THEN {"operand-modified"} ELSE {}
+Judged(e) ==
   CASE e.ev = "arith" -> ArithFailed(e)
     [] e.ev = "divmod" -> DivFailed(e)
     [] e.ev = "trig" -> TrigFailed(e)
@@ -202,6 +205,7 @@ Failed(e) ==
     \* that are not themselves one of the judged operations (e.g. 1j * phase before exp)
     [] e.ev = "construct" -> {"raises"}
     [] OTHER -> {"unknown-event"}
+Failed(e) == Judged(e) \cup OperandKept(e)
 
 TraceInit == pos = 1 /\ nbad = 0
 TraceNext ==
